@@ -1,4 +1,4 @@
 SPECIFICATION Spec
-CONSTANTS Family = "sim"  MaxTrials = 4  MaxStep = 5  MaxVal = 3  MaxReports = 14  WithNaN = TRUE  WithFail = TRUE
-INVARIANT AlgoWithinEnvelope
+CONSTANTS Family = "sim"  MaxTrials = 4  MaxStep = 6  MaxVal = 3  MaxReports = 14  WithNaN = TRUE
+          FinishStates = {"COMPLETE", "PRUNED", "FAIL"}
 CHECK_DEADLOCK FALSE
